@@ -2,7 +2,7 @@
 (* Spec -> code: for every configuration executed on the real classes, the  *)
 (* design model predicts the blocks requested by each read_runtime_data     *)
 (* call, whether the call succeeds, and the blocks listed afterwards.       *)
-EXTENDS Inverter, Json, IOUtils
+EXTENDS Inverter, ModelTags, Json, IOUtils
 
 Cfgs == JsonDeserialize(IOEnv.VERIF_CFGS)
 VARIABLES pid, step
@@ -11,8 +11,10 @@ pvars == <<vars, pid, step>>
 ToSet(s) == {s[i] : i \in 1..Len(s)}
 PInit == /\ pid \in 1..Len(Cfgs)
          /\ step = 0
-         /\ cfg = [four |-> Cfgs[pid].four, single |-> Cfgs[pid].single, bat2 |-> Cfgs[pid].bat2, p745 |-> Cfgs[pid].p745,
-                   rated |-> Cfgs[pid].rated]
+         \* the capability class of a known tag is the specification's (ModelTags.tla); for a tag it does not know the
+         \* predicates the implementation reports are taken over
+         /\ cfg = LET c == Cfgs[pid] p == IF Known(c.tag) THEN Pred(c.tag) ELSE c IN
+                   [four |-> p.four, single |-> p.single, bat2 |-> p.bat2, p745 |-> p.p745, rated |-> c.rated]
          /\ refused = ToSet(Cfgs[pid].refused)
          /\ fl = InitFlags
          /\ idmap = [set |-> FALSE, b |-> {}]
